@@ -21,6 +21,9 @@ except Exception:
     PARAMS_BASE = {}
 
 
+NO_E23 = False   # set by the driver for a second attempt when an E23 closure contract does not type-check in spec mode
+
+
 class AnchorLost(Exception):
     """a listed item / loop / closure is no longer where the spec expects it -> exit 2"""
 
@@ -816,7 +819,7 @@ class Gen:
                     idx += 1
             c = clos_spec.get(k)
             body_a, body_b = st[cl.body_lo].start, st[cl.body_hi].end
-            pk_ = self._pure_closure(st, cl) if (c is None and k in new_closures and not lets) else None
+            pk_ = self._pure_closure(st, cl) if (c is None and k in new_closures and not lets and not NO_E23) else None
             if pk_:
                 # E23: a new closure whose body is one comparison / boolean expression, or one field path, over variables, fields and
                 # literals gets the contract "the result is that expression" (Verus checks it against the body: it is not an assumption)
@@ -874,6 +877,7 @@ class Gen:
                 itname = c.args[2] if len(c.args) > 2 and not c.args[2].startswith("C") else "it"
                 sp.insert(st[lp.in_kw].end, ADD("E4", f" {itname}:"))
             sp.insert(st[lp.body_open].start, ADD("E4", f"\n/*@L {lab}*/{c.text.rstrip()}\n/*@E*/\n"))
+        pending_hints = []
         for c in cls:
             if c.kind == "generics":
                 # E15: `x: impl Bound` in argument position -> named type parameter (so that specs can mention it)
@@ -1138,7 +1142,25 @@ class Gen:
                     self.skipped_hints.append(f"{fid}: hint before {anchor!r} #{nth}")
                     info.setdefault("skipped_hints", []).append(f"{anchor} #{nth}")
                     continue
-                sp.insert(st[hits[nth - 1]].start, ADD("E10", c.text.rstrip() + "\n"))
+                pending_hints.append((st[hits[nth - 1]].start, len(pending_hints), c, anchor, nth))
+        # a hint may use ghost variables that an earlier hint (or the prefix) defines. If the statements were reordered, or the defining
+        # hint lost its anchor, the using hint is skipped as well (soft, recorded) instead of producing text that does not compile
+        gdef = lambda txt: set(re.findall(r"\blet\s+ghost\s+(?:mut\s+)?(\w+)", txt))
+        hint_ghosts = set()
+        for c in cls:
+            if c.kind in ("insert_before", "loop_begin", "loop_end", "after_loop"): hint_ghosts |= gdef(c.text)
+        defined = set()
+        for c in cls:
+            if c.kind in ("prefix", "loop_begin", "loop_end", "after_loop"): defined |= gdef(c.text)
+        for off, _, c, anchor, nth in sorted(pending_hints, key=lambda x: (x[0], x[1])):
+            used = set(re.findall(r"\b\w+\b", c.text)) & hint_ghosts
+            mine = gdef(c.text)
+            if not used <= (defined | mine):
+                self.skipped_hints.append(f"{fid}: hint before {anchor!r} #{nth} uses {sorted(used - defined - mine)}, not defined before it on this tree")
+                info.setdefault("skipped_hints", []).append(f"{anchor} #{nth} (needs {sorted(used - defined - mine)})")
+                continue
+            defined |= mine
+            sp.insert(off, ADD("E10", c.text.rstrip() + "\n"))
         # E19: a `let PAT = a.m1(..).m2(..)...;` method chain is split into consecutive lets at listed `.method` anchors, so that a
         # proof hint can stand between two calls of the chain (evaluation order and every call are unchanged)
         splits = {}
